@@ -6,8 +6,24 @@ from .world import (CTX_NAMES, EXC_CTX_NAMES, PERM_TOKENS, WRAPPERS, ROUTES, KIN
 
 NAMES = ['', 'v', 'w1', 'w2']
 VNAMES = ['', 'v', 'w1', 'w2', 'zz']
-METHODS = ['GET', 'POST']
-METHOD_VALS = ['GET', 'POST', ['GET', 'POST']]
+METHODS = ['GET', 'POST', 'HEAD']
+# one predicate set has several spellings: order of the tuple, and GET implies HEAD (RequestMethodPredicate adds it)
+METHOD_VALS = ['GET', 'POST', ['GET', 'POST'], ['POST', 'GET'], ['GET', 'HEAD', 'POST'], ['GET', 'HEAD'], 'HEAD',
+               ['HEAD', 'POST'], ['POST', 'HEAD', 'GET']]
+
+
+def method_set(v):
+    """the set of methods a request_method= value stands for (what the predicate matches)"""
+    ms = set(v if isinstance(v, list) else [v])
+    if 'GET' in ms:
+        ms.add('HEAD')
+    return sorted(ms)
+
+
+def respell(rng, v):
+    """another spelling of the same request_method predicate (None when there is only one)"""
+    alts = [x for x in METHOD_VALS if method_set(x) == method_set(v) and x != v]
+    return rng.choice(alts) if alts else None
 BEHAVES = ['ret', 'boom', 'forbid', 'notfound']
 GRANT_PERMS = ['view', 'edit', 'ZERO', 'EMPTY', 'NPR']
 RES_OF_CTX = {None: [0, 1, 2], 'Root': [0], 'A': [1, 2], 'B': [2], 'I': [2]}
@@ -17,7 +33,7 @@ def gen_perm(rng, p_none=0.34):
     r = rng.random()
     if r < p_none:
         return None
-    return rng.choice(['view', 'view', 'edit', 'edit', 'NPR', 'ZERO', 'ZERO', 'EMPTY'])
+    return rng.choice(['view', 'view', 'view', 'edit', 'edit', 'edit', 'NPR', 'NPR', 'NPRC', 'ZERO', 'ZERO', 'ZERO', 'EMPTY'])
 
 
 def gen_preds(rng):
@@ -51,7 +67,10 @@ def gen_viewlike(rng, tag, routes, has_static):
         v['ctx'] = rng.choice(CTX_NAMES)
         v['name'] = rng.choice(['', '', '', 'v', 'v', 'w1', 'w2'])
         v['perm'] = gen_perm(rng)
+        if v['perm'] is None and rng.random() < 0.2:
+            v['xnone'] = True                         # permission=None passed explicitly
         if v['kind'] in ('cls', 'cls2', 'attr') and rng.random() < 0.35:
+            v.pop('xnone', None)                      # (an explicit None would override the class default: defaults.update(kw))
             # the permission comes (also) from @view_defaults on the class or on a base class
             v['vd'] = {'perm': rng.choice(['view', 'edit', 'edit', 'ZERO', 'NPR']), 'where': rng.choice(['own', 'base', 'base'])}
             if rng.random() < 0.7:
@@ -65,6 +84,8 @@ def gen_viewlike(rng, tag, routes, has_static):
     elif r < 0.74:                                 # add_view on an exception context (both variants unless exception_only)
         v['ctx'] = rng.choice(EXC_CTX_NAMES)
         v['perm'] = gen_perm(rng, 0.45)
+        if v['perm'] is None and rng.random() < 0.2:
+            v['xnone'] = True
         v['exc_only'] = rng.random() < 0.4
         v['wrapper'] = 'w1' if rng.random() < 0.15 else None
     elif r < 0.82:
@@ -78,7 +99,10 @@ def gen_viewlike(rng, tag, routes, has_static):
         v['k'] = 'excview'
         v['ctx'] = rng.choice(EXC_CTX_NAMES)
     else:
-        return {'k': 'static', 'tag': tag, 'perm': gen_perm(rng, 0.4)}
+        st = {'k': 'static', 'tag': tag, 'perm': gen_perm(rng, 0.5)}
+        if st['perm'] is None and rng.random() < 0.5:
+            st['xnone'] = True                        # add_static_view(..., permission=None)
+        return st
     if v['k'] != 'view':
         v['kind'] = rng.choice(['fn', 'fn1', 'cls', 'attr', 'json']) if not v['append_slash'] else rng.choice(['fn', 'fn1', 'cls'])
     return v
@@ -100,7 +124,7 @@ def disc_key(s):
     for n in sorted(p):
         v = p[n]
         if n == 'request_method':
-            v = sorted(set(v if isinstance(v, list) else [v]))
+            v = method_set(v)
         elif n == 'custom':
             v = [list(x) for x in v]
         pk.append([n, v])
@@ -112,7 +136,8 @@ def gen_requests(rng, case, n):
     routes = [s['name'] for s in case['stmts'] if s['k'] == 'route']
     out = []
     for _ in range(n):
-        r = {'route': None, 'res': 0, 'vname': '', 'method': rng.choice(METHODS), 'xhr': rng.random() < 0.4,
+        r = {'route': None, 'res': 0, 'vname': '', 'method': rng.choice(['GET', 'GET', 'GET', 'POST', 'POST', 'POST', 'HEAD']),
+             'xhr': rng.random() < 0.4,
              'truth': sorted(rng.sample(range(4), rng.choice([0, 1, 2, 3, 4])))}
         if rng.random() < 0.35:
             r['csrf'] = True                          # the request carries a valid CSRF token (cookie + header)
@@ -123,6 +148,8 @@ def gen_requests(rng, case, n):
                 t = None
         if t is not None and t['k'] == 'static':
             r['static'] = True
+            if r['method'] == 'HEAD':
+                r['method'] = 'GET'                   # the static view's body is recognised by the file content
             out.append(r)
             continue
         if t is not None and t['ctx'] not in EXC_CTX_NAMES:
@@ -154,9 +181,12 @@ def gen_case(rng):
         pol = {'k': 'policy', 'falsy': rng.random() < 0.3, 'ctor': rng.random() < 0.25}
         if not pol['falsy'] and not pol['ctor'] and rng.random() < 0.25:
             pol['legacy'] = True          # set_authorization_policy + set_authentication_policy (LegacySecurityPolicy)
+        elif rng.random() < 0.2:
+            pol['swap'] = True            # the object's `permits` attribute resolves to another callable while configuring
         stmts.append(pol)
     if rng.random() < 0.55:
-        stmts.append({'k': 'defperm', 'perm': rng.choice(['view', 'view', 'edit', 'ZERO', 'ZERO', 'EMPTY', 'NPR']),
+        stmts.append({'k': 'defperm', 'perm': rng.choice(['view', 'view', 'view', 'edit', 'edit', 'ZERO', 'ZERO', 'ZERO', 'EMPTY',
+                                                          'EMPTY', 'NPR', 'NPRC']),
                       'ctor': rng.random() < 0.25})
     routes = [r for r in ROUTES if rng.random() < 0.45]
     for r in routes:
@@ -192,8 +222,15 @@ def gen_case(rng):
                 o = copy.deepcopy(v)
                 o['tag'] = tag
                 tag += 1
-                o['perm'] = gen_perm(rng, 0.1) if v['perm'] in (None, 'NPR') else rng.choice([None, 'NPR', 'edit'])
+                o['perm'] = gen_perm(rng, 0.1) if v['perm'] in (None, 'NPR', 'NPRC') else rng.choice([None, 'NPR', 'edit'])
                 o['behave'] = 'ret'
+                if o['perm'] is not None:
+                    o.pop('xnone', None)
+                # the overriding statement may SPELL the same predicates differently (tuple order, the implied HEAD)
+                m = o['preds'].get('request_method')
+                alt = respell(rng, m) if m is not None and rng.random() < 0.6 else None
+                if alt is not None:
+                    o['preds']['request_method'] = copy.deepcopy(alt)
                 second.append(o)
         # a later commit adds a view for a MORE SPECIFIC context under the same name / route / predicates, with another
         # permission (a new slot: nothing is replaced)
@@ -204,8 +241,10 @@ def gen_case(rng):
                 o['tag'] = tag
                 tag += 1
                 o['ctx'] = rng.choice(more)
-                o['perm'] = gen_perm(rng, 0.1) if v['perm'] in (None, 'NPR') else rng.choice([None, 'NPR', 'edit'])
+                o['perm'] = gen_perm(rng, 0.1) if v['perm'] in (None, 'NPR', 'NPRC') else rng.choice([None, 'NPR', 'edit'])
                 o['behave'] = 'ret'
+                if o['perm'] is not None:
+                    o.pop('xnone', None)
                 o.pop('vd', None)
                 second.append(o)
     batch1 = stmts + first
@@ -280,9 +319,11 @@ def valid(case):
                     return False
                 keys.add(dk)
                 if k == 'policy':
-                    if bi or set(s) - {'legacy'} != {'k', 'falsy', 'ctor'} or not _is_bool(s['falsy']) or not _is_bool(s['ctor']):
+                    if bi or set(s) - {'legacy', 'swap'} != {'k', 'falsy', 'ctor'} or not _is_bool(s['falsy']) or not _is_bool(s['ctor']):
                         return False
                     if 'legacy' in s and (s['legacy'] is not True or s['falsy'] or s['ctor']):
+                        return False
+                    if 'swap' in s and (s['swap'] is not True or 'legacy' in s):
                         return False
                 elif k == 'defperm':
                     if bi or set(s) != {'k', 'perm', 'ctor'} or s['perm'] not in PERM_TOKENS or not _is_bool(s['ctor']):
@@ -292,10 +333,14 @@ def valid(case):
                         return False
                     routes.append(s['name'])
                 elif k == 'static':
-                    if set(s) != {'k', 'tag', 'perm'} or not (s['perm'] is None or s['perm'] in PERM_TOKENS):
+                    if set(s) - {'xnone'} != {'k', 'tag', 'perm'} or not (s['perm'] is None or s['perm'] in PERM_TOKENS):
+                        return False
+                    if 'xnone' in s and (s['xnone'] is not True or s['perm'] is not None):
                         return False
                 elif k in ('view', 'notfound', 'forbidden', 'excview'):
-                    if set(s) - {'csrf', 'vd'} != set(base_view(0)) or ('csrf' in s and (s['csrf'] is not True or k != 'view')):
+                    if set(s) - {'csrf', 'vd', 'xnone'} != set(base_view(0)) or ('csrf' in s and (s['csrf'] is not True or k != 'view')):
+                        return False
+                    if 'xnone' in s and (s['xnone'] is not True or k != 'view' or s['perm'] is not None or 'vd' in s):
                         return False
                     if 'vd' in s and not (k == 'view' and s['kind'] in ('cls', 'cls2', 'attr') and isinstance(s['vd'], dict)
                                           and set(s['vd']) == {'perm', 'where'} and s['vd']['perm'] in PERM_TOKENS
@@ -310,7 +355,9 @@ def valid(case):
                         return False
                     for n, v in s['preds'].items():
                         if n == 'request_method':
-                            if v not in METHOD_VALS:
+                            if not ((isinstance(v, str) and v in METHODS) or
+                                    (isinstance(v, list) and v and all(isinstance(x, str) and x in METHODS for x in v)
+                                     and len(set(v)) == len(v))):
                                 return False
                         elif n == 'xhr':
                             if not _is_bool(v):
@@ -414,6 +461,14 @@ def shrinks(case):
         c2 = dict(case)
         del c2['sibling']
         yield c2
+    for i, s in enumerate(st):
+        if s.get('xnone') or s.get('swap'):
+            s2 = dict(s)
+            s2.pop('xnone', None)
+            s2.pop('swap', None)
+            yield dict(case, stmts=st[:i] + [s2] + st[i + 1:])
+        if s.get('perm') == 'NPRC':
+            yield dict(case, stmts=st[:i] + [dict(s, perm='NPR')] + st[i + 1:])
     if case.get('warm'):
         c2 = dict(case)
         del c2['warm']
@@ -557,6 +612,43 @@ def targeted_cases():
         for dp in ('view', 'ZERO'):
             st = [{'k': 'policy', 'falsy': falsy, 'ctor': True}, {'k': 'defperm', 'perm': dp, 'ctor': True}, _v(1), _v(2, name='v', perm='edit')]
             out.append(_case(st, [], [_rq(), _rq(vname='v')]))
+    # the marker VALUE as an equal, non-identical str (explicit and as the default permission)
+    dpv = {'k': 'defperm', 'perm': 'view', 'ctor': False}
+    st = [dict(pol), dict(dpv), _v(1, perm='NPRC'), _v(2, name='v', perm='NPR'), _v(3, name='w1'),
+          {'k': 'static', 'tag': 4, 'perm': 'NPRC'}]
+    rqs = [_rq(), _rq(vname='v'), _rq(vname='w1'), _rq(static=True)]
+    out.append(_case(copy.deepcopy(st), [], copy.deepcopy(rqs)))
+    out.append(_case(copy.deepcopy(st), [['view', [0, 0]]], copy.deepcopy(rqs)))
+    st = [dict(pol), {'k': 'defperm', 'perm': 'NPRC', 'ctor': False}, _v(1), _v(2, name='v', perm='edit')]
+    out.append(_case(copy.deepcopy(st), [], [_rq(), _rq(vname='v')]))
+    st = [dict(pol), {'k': 'defperm', 'perm': 'NPRC', 'ctor': True}, _v(1), _v(2, k='notfound', append_slash=True)]
+    out.append(_case(copy.deepcopy(st), [], [_rq(), _rq(vname='zz')]))
+    # "not specified" spelled out: permission=None passed explicitly (static view, plain view, exception-context view)
+    for dp in ('view', 'ZERO'):
+        st = [dict(pol), {'k': 'defperm', 'perm': dp, 'ctor': False}, {'k': 'static', 'tag': 1, 'perm': None, 'xnone': True},
+              _v(2, xnone=True), _v(3, ctx='Boom', xnone=True), _v(4, name='v', behave='boom', perm='NPR')]
+        rqs = [_rq(static=True), _rq(), _rq(vname='v')]
+        out.append(_case(copy.deepcopy(st), [], copy.deepcopy(rqs)))
+        out.append(_case(copy.deepcopy(st), [[dp, [0, 0]]], copy.deepcopy(rqs)))
+    # a policy object whose `permits` attribute resolves to something else while the application is configured
+    for P in ({'k': 'policy', 'falsy': False, 'ctor': False, 'swap': True}, {'k': 'policy', 'falsy': True, 'ctor': True, 'swap': True}):
+        st = [dict(P), dict(dpv), _v(1, perm='edit'), _v(2, name='v'), _v(3, name='w1', perm='NPR', wrapper='w2'), _v(4, name='w2', perm='edit')]
+        rqs = [_rq(), _rq(vname='v'), _rq(vname='w1')]
+        out.append(_case(copy.deepcopy(st), [], copy.deepcopy(rqs)))
+        out.append(_case(copy.deepcopy(st), [['view', [0, 0]]], copy.deepcopy(rqs)))
+        c = _case(copy.deepcopy(st) + [_v(5, ctx='A', name='v', perm='edit')], [], [_rq(vname='v', res=1), _rq(vname='v')], cut=len(st) - 1)
+        c['warm'] = [_rq(vname='v', res=1)]
+        out.append(c)
+    # one predicate set, two spellings: the later commit overrides an open view with a protected one and writes the
+    # request_method tuple in another order / with the implied HEAD spelled out (first registration of the slot AND second)
+    for m1, m2 in ((['GET', 'POST'], ['GET', 'HEAD', 'POST']), (['GET', 'HEAD', 'POST'], ['POST', 'GET']), ('GET', ['GET', 'HEAD']),
+                   (['POST', 'GET'], ['GET', 'POST']), (['HEAD', 'POST'], ['POST', 'HEAD'])):
+        for first in (True, False):
+            a, b = _v(1, name='v', preds={'request_method': copy.deepcopy(m1)}), _v(2, name='v', preds={'xhr': True})
+            st = [dict(pol)] + ([a, b] if first else [b, a]) + [_v(3, name='v', preds={'request_method': copy.deepcopy(m2)}, perm='edit')]
+            rqs = [_rq(vname='v', method=x) for x in ('GET', 'POST', 'HEAD')]
+            out.append(_case(copy.deepcopy(st), [], copy.deepcopy(rqs), cut=2))
+            out.append(_case(copy.deepcopy(st), [['edit', [0, 0]]], copy.deepcopy(rqs), cut=2))
     # two commits: override under the other interface; append_slash written after the policy is in force
     st = [dict(pol), _v(1), _v(2, perm='edit')]
     out.append(_case(st, [], [_rq()], cut=1))
@@ -573,11 +665,13 @@ def targeted(broken, disagreements, rng):
     # neighbourhood of the disagreeing cases: every permission token on every view, policy moved to the end
     for d in disagreements[:5]:
         c = d['case']
-        for tok in (None, 'view', 'ZERO', 'EMPTY', 'NPR'):
+        for tok in (None, 'view', 'ZERO', 'EMPTY', 'NPR', 'NPRC'):
             c2 = copy.deepcopy(c)
             for s in c2['stmts']:
                 if s['k'] == 'view':
                     s['perm'] = tok
+                    if tok is not None:
+                        s.pop('xnone', None)
             out.append(c2)
         c3 = copy.deepcopy(c)
         for s in list(c3['stmts']):
